@@ -4,8 +4,8 @@ set -e
 cd "$(dirname "$(readlink -f "$0")")/../.."
 export GOFLAGS=-mod=mod GOPROXY=off GOTOOLCHAIN=local
 mkdir -p .build/bin
-go1.26 build -o .build/bin/instr ./engine/instr
-VERIF_ROOT="$PWD" .build/bin/instr -id C13 -out "$PWD/.build/instr-C13" \
+go1.26 build -o .build/bin/instr-C13 ./engine/instr
+VERIF_ROOT="$PWD" .build/bin/instr-C13 -id C13 -out "$PWD/.build/instr-C13" \
   -swapsync logs/string_logger.go -builder logs/string_logger.go \
   -swapsync logs/log.go -swapsync logs/multiple_logger.go -swapsync logs/writer.go -swapsync logs/json_logger.go
 # the free-running race-detector companion is built WITHOUT the instrumentation (and with a candidate
